@@ -7,6 +7,7 @@ import (
 	"encoding/json"
 	"fmt"
 	"io"
+	"net"
 	"os"
 	"path"
 	"path/filepath"
@@ -40,6 +41,9 @@ type c11Cmd struct {
 	Xfer  bool   `json:"xfer,omitempty"`  // needs a passive data connection
 	Rst   bool   `json:"rst,omitempty"`   // reset the data connection mid-transfer
 	Plain bool   `json:"plain,omitempty"` // plain-text data connection (the service expects TLS on it: error path)
+	// Active: active mode - the client listens and names its address in PORT (or EPRT), the service dials it;
+	// the data then travels in plain text (the service wraps only passive connections in TLS)
+	Active bool `json:"active,omitempty"`
 }
 
 var c11Comps = []string{"a", "b", "..", ".", "", "a", "..", "SENTINEL", "secret.txt"}
@@ -141,6 +145,7 @@ func genC11(seed uint64, idx int, tier string) *Scenario {
 				c.Xfer = true
 				c.Rst = r.Chance(0.15)
 				c.Plain = r.Chance(0.15)
+				c.Active = r.Chance(0.25)
 			case "RETR", "LIST", "NLST":
 				c.Path = c11Path(r)
 				if v != "RETR" && r.Chance(0.3) {
@@ -149,6 +154,7 @@ func genC11(seed uint64, idx int, tier string) *Scenario {
 				c.Xfer = true
 				c.Rst = r.Chance(0.1)
 				c.Plain = r.Chance(0.15)
+				c.Active = r.Chance(0.25)
 			default:
 				c.Path = c11Path(r)
 			}
@@ -201,7 +207,7 @@ func runC11(t *testing.T, sc *Scenario) Result {
 	var before, after map[string]string
 	var leaked []string
 	var pwds []string
-	xfers, resets, stored, tlsRead := 0, 0, 0, 0
+	xfers, resets, stored, tlsRead, activeConns := 0, 0, 0, 0, 0
 	var maskTmp, maskRoot string
 	obs := RunScenario(t, sc, func(w *World) {
 		var tmp, ftpRoot string
@@ -309,8 +315,64 @@ func runC11(t *testing.T, sc *Scenario) Result {
 				}
 				return
 			}
-			// passive transfer
 			xfers++
+			if c.Active {
+				// active transfer: listen on an address of the client's, name it, let the service dial in
+				la := mustTCPAddr(w.Sc.Actors[ai].Src)
+				la.Port += 3000 + xfers
+				l, err := w.Net.ListenTCP(la, "ftp-client")
+				if err != nil {
+					return
+				}
+				defer l.Close()
+				var dc net.Conn
+				acc := make(chan struct{})
+				go func() {
+					defer close(acc)
+					dc, _ = l.Accept()
+				}()
+				ip4 := la.IP.To4()
+				if xfers%2 == 0 {
+					ep.PeerInject([]byte(fmt.Sprintf("EPRT |1|%s|%d|\r\n", la.IP.String(), la.Port)))
+				} else {
+					ep.PeerInject([]byte(fmt.Sprintf("PORT %d,%d,%d,%d,%d,%d\r\n", ip4[0], ip4[1], ip4[2], ip4[3], la.Port/256, la.Port%256)))
+				}
+				b := drain()
+				check("reply to PORT", b)
+				if !bytes.HasPrefix(b, []byte("200")) {
+					return
+				}
+				<-acc
+				if dc == nil {
+					return
+				}
+				activeConns++
+				dc.SetDeadline(time.Now().Add(20 * time.Second))
+				ep.PeerInject([]byte(line + "\r\n"))
+				done := make(chan struct{})
+				var got []byte
+				go func() {
+					defer close(done)
+					if c.Verb == "STOR" {
+						dc.Write([]byte(c.Data))
+						dc.Close()
+						return
+					}
+					got, _ = io.ReadAll(dc)
+					dc.Close()
+				}()
+				<-done
+				if c.Verb != "STOR" {
+					check("data of "+line, got)
+				}
+				b = drain()
+				check("reply after "+line, b)
+				if c.Verb == "STOR" && bytes.Contains(b, []byte("226 ")) {
+					stored++
+				}
+				return
+			}
+			// passive transfer
 			ep.PeerInject([]byte("PASV\r\n"))
 			b := drain()
 			m := pasvRe.FindSubmatch(b)
@@ -450,6 +512,7 @@ func runC11(t *testing.T, sc *Scenario) Result {
 	res.probe("transfers", xfers)
 	res.probe("uploads-completed", stored)
 	res.probe("downloads-with-data", tlsRead)
+	res.probe("active-mode-data-connections", activeConns)
 	res.fault("data-connection-reset", resets)
 	if len(leaked) > 0 {
 		res.Violate("content-outside-root-disclosed", "ftp", leaked[0])
